@@ -2,6 +2,7 @@ package cli
 
 import (
 	"context"
+	"encoding/json"
 	"io"
 	"net/http"
 
@@ -22,7 +23,12 @@ func Verify(ctx context.Context, in io.Reader, key *dsig.PublicKey) error {
 	}
 	env := new(gobl.Envelope)
 	if err := jsonyaml.Unmarshal(body, env); err != nil {
-		return wrapError(StatusBadRequest, err)
+		// The YAML parser refuses some valid JSON texts, such as characters
+		// outside the basic plane written as a pair of \u escapes.
+		env = new(gobl.Envelope)
+		if !json.Valid(body) || json.Unmarshal(body, env) != nil {
+			return wrapError(StatusBadRequest, err)
+		}
 	}
 	if err := env.Validate(); err != nil {
 		return wrapError(StatusUnprocessableEntity, err)
